@@ -18,7 +18,7 @@ import sys
 
 from lib import common as C
 
-FINDINGS = ["F10", "F10b", "F10c", "F10d", "F10e", "F10g"]   # order = bits of the `dmx` mask
+FINDINGS = ["F10", "F10b", "F10c", "F10d", "F10e", "F10g", "F10i", "F10k"]   # order = bits of the `dmx` mask
 FINDING_TEXT = {
     "F10": "dd_ctor_dtor_name: strrchr(dd->new, ':') with dd->new == NULL (C1/D0 code before any name)",
     "F10b": "dd_special_name: strchr(T_type, '\\0') succeeds -> T_type_name[6] out of bounds",
@@ -26,6 +26,10 @@ FINDING_TEXT = {
     "F10d": "signed overflow of dd->pos + num in dd_source_name (-> huge realloc, exit) / n + 1 in the lambda name",
     "F10e": "dd_source_name: a rust `$..$` mapping may extend past the name's end (negative size / over-read / dropped char)",
     "F10g": "demangle_simple returns NULL when the parse succeeds without output",
+    "F10i": "dd_discriminator: `_<digit>` read with dd_number swallows the digits of the following <source-name> "
+            "(local class as parameter: name returned unchanged)",
+    "F10k": "dd_expr_primary: the hex digits of a floating-point literal (C++20 template argument) are not skipped "
+            "(name returned unchanged)",
 }
 GLOBAL_PREFIX = b"_GLOBAL__sub_I_"
 
@@ -482,7 +486,7 @@ def production_coverage(names, tables):
     """run the model's production trace (`cov`) on the names; returns the coverage summary for the evidence"""
     ops = {a + b for a, b, _ in tables["ops"]}
     unary = {u[:2] for u in tables["unary_ops"]}
-    exe = os.path.join(C.LEAN, ".lake", "build", "bin", "uvmodel")
+    exe = C.uvmodel_path()
     r = subprocess.run([exe, "C13"], input="\n".join("cov " + n.hex() for n in names) + "\n",
                        stdout=subprocess.PIPE, stderr=subprocess.PIPE, text=True, timeout=1200)
     prods = collections.Counter()
